@@ -70,6 +70,21 @@ def variants(quick, rng):
                      "text": gen.pdb_text([gen.respell(gen.peptide(base5), style, only=("O", "OXT"))])})
         jobs.append({"what": f"hydrogens under alternative spelling {style}", "args": [f"--ff={ffs[2 + style]}"],
                      "text": gen.pdb_text([gen.respell(gen.peptide(["SER", "LYS", "HIS", "ASP", "TYR", "LEU"], hydrogens=True), style)])})
+    # one MODEL / ENDMDL pair and no END record (a model cut out of an ensemble)
+    body = gen.pdb_text([gen.peptide(["ALA", "SER", "LYS", "GLY", "HIS"]) + gen.water((6, 14, 4), resseq=101)], end=False).rstrip("\n")
+    jobs.append({"what": "single MODEL without END", "text": f"MODEL        1\n{body}\nENDMDL\n", "args": ["--ff=AMBER"]})
+    jobs.append({"what": "single MODEL without ENDMDL and END", "text": f"MODEL        1\n{body}\n", "args": ["--ff=PARSE", "--noopt"]})
+    # every residue type at the chain ends with all steps on (flips, hydroxyls, terminal groups)
+    for x in gen.AMINO:
+        for pos in (0, 2):
+            if quick and (gen.AMINO.index(x) + pos) % 2:
+                continue
+            seq = ["ALA", "ALA", "ALA"]
+            seq[pos] = x
+            jobs.append({"what": f"{'-'.join(seq)} all steps", "text": gen.pdb_text([gen.peptide(seq) + gen.water((6, 14, 4), resseq=101)]), "args": ["--ff=AMBER"]})
+    for x in ("ASN", "GLN", "HIS"):
+        seq = ["ALA", "ALA", x]
+        jobs.append({"what": f"{'-'.join(seq)} all steps", "text": gen.pdb_text([gen.peptide(seq) + gen.water((6, 14, 4), resseq=101)]), "args": ["--ff=PARSE"]})
     # backbone gap inside one chain (no TER, numbering continues)
     full = gen.peptide(["ALA", "SER", "LYS", "GLY", "TRP", "ASP", "VAL", "LEU"])
     gap = [a for a in full if a["res_index"] not in (3, 4)]
